@@ -78,6 +78,19 @@ def with_marks(t, ms):
 NL = re.compile(r"\r?\n|\r")
 
 
+def inline_target(rs, t):
+    """Is this token an inline node that mark steps act on: a text unit, an inline leaf, or
+    the open token of an inline atom with content?"""
+    if t[0] == "T":
+        return True
+    if t[0] == "L":
+        return rs.nodes[t[1]].inline
+    if t[0] == "O":
+        nt = rs.nodes[t[1]]
+        return nt.inline and bool(nt.spec.get("atom"))
+    return False
+
+
 def case(ctx, rnd, i):
     from prosemirror.transform import Transform
 
@@ -102,12 +115,19 @@ def case(ctx, rnd, i):
     if i % 20 == 0:
         ctx.sample({"schema": sch.id, "doc": str(d)[:200]})
     marky = getattr(sch, "spec", None) is not None and all(k.startswith(("p", "q", "doc", "text", "i")) for k in sch.spec["nodes"]) and "p0" in sch.spec["nodes"]
+    has_box = any(t[0] == "O" and rs.nodes[t[1]].inline for t in tk)
+    if has_box:
+        ctx.count("docs_with_inline_container")
     for _ in range(40):
         op = rnd.choice(OPS) if not marky or rnd.random() < 0.3 else rnd.choice(["add_mark", "add_mark", "remove_mark"])
         a = rnd.randint(0, n)
         b = min(n, a + rnd.choice([0, 1, 2, 3, 5, 8, 13, n]))
         if marky and rnd.random() < 0.4:
             a, b = rnd.randint(0, min(3, n)), n
+        if has_box:
+            # inline nodes with content: upstream's add_mark / set_block_type treat them in ways the
+            # simple token law does not describe; only the removal clause is judged on such documents
+            op = "remove_mark"
         tr = Transform(d)
         ctx.count("ops")
         ctx.ev()
@@ -124,7 +144,7 @@ def case(ctx, rnd, i):
             exp = []
             changed = 0
             for idx, t in enumerate(tk):
-                if t[0] in ("T", "L") and a <= idx < b and rs.nodes["text" if t[0] == "T" else t[1]].inline and rs.allows_mark(par[idx], mk[0]):
+                if inline_target(rs, t) and a <= idx < b and rs.allows_mark(par[idx], mk[0]):
                     nm = rs.ref_add(mk, marks_of(t))
                     changed += nm != marks_of(t)
                     exp.append(with_marks(t, nm))
@@ -136,7 +156,7 @@ def case(ctx, rnd, i):
             m = gensteps.random_mark(sch, rnd, g)
             mode = rnd.choice(["mark", "type", "all"]) if m is not None else "all"
             # prefer marks that occur
-            present = [x for t in tk[a:b] if t[0] in ("T", "L") for x in marks_of(t)]
+            present = [x for t in tk[a:b] if t[0] in ("T", "L", "O") for x in marks_of(t)]
             if present and rnd.random() < 0.7:
                 x = rnd.choice(present)
                 m = S.marks[x[0]].create(json.loads(x[1]))
@@ -157,7 +177,7 @@ def case(ctx, rnd, i):
             exp = []
             changed = 0
             for idx, t in enumerate(tk):
-                if t[0] in ("T", "L") and a <= idx < b and rs.nodes["text" if t[0] == "T" else t[1]].inline:
+                if inline_target(rs, t) and a <= idx < b:
                     nm = tuple(x for x in marks_of(t) if keep(x))
                     changed += nm != marks_of(t)
                     exp.append(with_marks(t, nm))
@@ -165,6 +185,10 @@ def case(ctx, rnd, i):
                     exp.append(t)
             ctx.count("remove_mark_changed_tokens", changed)
             shape = ("remove", mode, changed > 0)
+            if has_box:
+                exp = None
+                box_keep = keep
+                shape = ("remove-box", mode)
         elif op in ("add_node_mark", "remove_node_mark"):
             m = gensteps.random_mark(sch, rnd, g)
             if m is None or not starts:
@@ -286,6 +310,26 @@ def case(ctx, rnd, i):
                               det, {**mech, "inside_range": inside, "old_marks": len(marks_of(tk[k])) if k < len(tk) else None})
                 continue
             ctx.cover([sid, op, shape, min(b - a, 3) if op in ("add_mark", "remove_mark") else None], nontrivial=not (op in ("add_mark", "remove_mark") and a == b))
+            continue
+        if has_box:
+            bad_tok = None
+            if [strip_marks(t) for t in new] != [strip_marks(t) for t in tk]:
+                ctx.violation("structure-changed", "remove_mark changed text or structure", det, mech)
+                continue
+            for idx, t in enumerate(new):
+                inl = t[0] == "T" or (t[0] in ("L", "O") and rs.nodes[t[1]].inline)
+                if a <= idx < b and inl and any(not box_keep(x) for x in marks_of(t)):
+                    bad_tok = (idx, t)
+                    break
+                if not (a <= idx < b) and t != tk[idx]:
+                    bad_tok = (idx, t)
+                    break
+            if bad_tok:
+                ctx.violation("marks-effect", "remove_mark (document with inline nodes that have content): token %d is %r after the removal (old %r)"
+                              % (bad_tok[0], bad_tok[1], tk[bad_tok[0]]), det, {**mech, "inline_container": True})
+            else:
+                ctx.count("remove_mark_on_inline_container_docs")
+                ctx.cover([sid, "remove-box", shape])
             continue
         if op == "set_block_type":
             _judge_block_type(ctx, sch, d, p, tk, tr.doc, newp, a, b, args, det, mech, sid, shape)
